@@ -21,6 +21,10 @@ v('c06-serializer-one-way','R-C06.5','serialization.py',"""    def deserialize_f
         \"\"\"Deserialize dictionary signature data to a value.""","""    def _deserialize_from_signature(cls, payload):
         \"\"\"Deserialize dictionary signature data to a value.""")
 v('c06-marker-untested','R-C06.5','serialization.py',"            '_enum': True,","            '_is_enum': True,")
+v('c06-marker-exact-type-guard','R-C06.7','serialization.py',"               isinstance(value, dict) and\n               value.get('_enum') is True","               cls is dict and\n               value.get('_enum') is True",note='the defect fixed in c93571f: JSON is loaded into OrderedDicts, the exact-type guard never sees the marker')
+v('c06-marker-exact-type-guard2','R-C06.7','serialization.py',"              isinstance(value, dict) and\n              value.get('_deconstructed') is True","              type(value) is dict and\n              value.get('_deconstructed') is True")
+v('c06-s-loader-plain-dict','R-C06.7','models.py',"                loaded_value = json.loads(value[len('json!'):],\n                                          object_pairs_hook=OrderedDict)","                loaded_value = json.loads(value[len('json!'):])",expect='silent',note='loader producing plain dicts is accepted by both guards')
+v('c06-s-guard-mapping-tuple','R-C06.7','serialization.py',"              isinstance(value, dict) and\n              value.get('_deconstructed') is True","              isinstance(value, (dict, OrderedDict)) and\n              value.get('_deconstructed') is True",expect='silent')
 # silent
 v('c06-s-local-dict','R-C06.1',G,"        legacy_app_label = app_sig_dict['legacy_app_label']","        data = app_sig_dict\n            legacy_app_label = data['legacy_app_label']",expect='silent',edits=[{'file':P+G,'old':"            legacy_app_label = app_sig_dict['legacy_app_label']",'new':"            data = app_sig_dict\n            legacy_app_label = data['legacy_app_label']"}])
 json.dump(V, open(os.path.dirname(os.path.abspath(__file__))+'/variants_c06.json','w'), indent=1)
